@@ -34,7 +34,9 @@ Val = Union[int, str, float, bool, None]
 
 
 def _nonneg(v):
-    if v < 0:
+    # a validator that only knows about numbers: it has no opinion on other values (the declared
+    # classes are what rejects those)
+    if isinstance(v, (int, float)) and v < 0:
         raise ValidationError(v, "must be >= 0")
 
 
